@@ -312,6 +312,17 @@ func (f *File) enterWriteMode() error {
 	return nil
 }
 
+// seekToEndIfAppending makes writes of a file opened with `O_APPEND` go to the end of the file
+func (f *File) seekToEndIfAppending() error {
+	if !f.flags.Append {
+		return nil
+	}
+
+	_, err := f.writeBuf.Seek(0, io.SeekEnd)
+
+	return err
+}
+
 func (f *File) seekWithoutLocking(offset int64, whence int) (int64, error) {
 	f.log.Trace("File.seekWithoutLocking", map[string]interface{}{
 		"name":   f.name,
@@ -650,6 +661,10 @@ func (f *File) Write(p []byte) (n int, err error) {
 		return -1, err
 	}
 
+	if err := f.seekToEndIfAppending(); err != nil {
+		return -1, err
+	}
+
 	n, err = f.writeBuf.Write(p)
 	if err != nil {
 		return -1, err
@@ -705,6 +720,10 @@ func (f *File) WriteString(s string) (ret int, err error) {
 	defer f.ioLock.Unlock()
 
 	if err := f.enterWriteMode(); err != nil {
+		return -1, err
+	}
+
+	if err := f.seekToEndIfAppending(); err != nil {
 		return -1, err
 	}
 
